@@ -2,6 +2,7 @@ package gqlty
 
 import (
 	"fmt"
+	"math"
 	"math/big"
 	"strconv"
 	"strings"
@@ -126,8 +127,15 @@ func valueToCoq(v ast.Value) string {
 		return "(GVInt " + z.String() + "%Z)"
 	case *ast.FloatValue:
 		// strconv is third-party to the model: whether the text is in float64 range is an attribute of the input.
-		_, err := strconv.ParseFloat(v.Value, 64)
-		return "(GVFloat " + vh.CoqString(v.Value) + " " + vh.CoqBool(err == nil) + ")"
+		f, err := strconv.ParseFloat(v.Value, 64)
+		canon, asInt := v.Value, "None"
+		if err == nil {
+			canon = strconv.FormatFloat(f, 'g', -1, 64)
+			if f == math.Trunc(f) && math.Abs(f) < 9007199254740992 {
+				asInt = "(Some " + vh.CoqZ(int64(f)) + ")"
+			}
+		}
+		return "(GVFloat " + vh.CoqString(canon) + " " + vh.CoqBool(err == nil) + " " + asInt + ")"
 	case *ast.StringValue:
 		return "(GVString " + vh.CoqString(v.Value) + ")"
 	case *ast.BooleanValue:
